@@ -272,8 +272,10 @@ PosMoves ==
          Shown(x) == <<x.fl[1], x.fl[2], x.fl[3], x.fl[4]>>
      IN Report(
           F(p # NoPos /\ e.n = 20480, "HARNESS", "prefix not legal or universe incomplete", [n |-> e.n])
-          \cup F(lt \subseteq accs, "C12", "the text of a legal move was refused",
+          \cup F(e.acc_total > Len(e.acc) \/ lt \subseteq accs, "C12", "the text of a legal move was refused",
                  [fen |-> FenLine(p), refused |-> lt \ accs])
+          \cup F(e.acc_total = Cardinality(lt), "C12", "the number of accepted move strings is not the number of legal moves",
+                 [fen |-> FenLine(p), accepted |-> e.acc_total, legal |-> Cardinality(lt)])
           \* one record for all strings accepted although they are not the text of a legal move (there may be thousands)
           \cup (LET extra == { i \in DOMAIN e.acc : e.acc[i][1] \notin lt } IN
                 IF extra = {} THEN {}
